@@ -80,7 +80,7 @@ class DetectionItemFromMapping(Contract):
     id = "C06.SigmaDetectionItem.from_mapping"
     target = f"{DET}:SigmaDetectionItem.from_mapping"
     props = ("C06", "C03")
-    cases = (("f", "scalar"), ("f|contains|all", "list"), ("|contains", "scalar"), (None, "list"), ("f|nope", "scalar"), ("f|re|i", "scalar"), ("f|re", "nonstr"))
+    cases = (("f", "scalar"), ("f|contains|all", "list"), ("|contains", "scalar"), (None, "list"), ("f|nope", "scalar"), ("f|re|i", "scalar"), ("f|re", "nonstr"), ("f|re", "mixed"), ("f|re", "list"))
     assumed = ["sigma_type() and the SigmaDetectionItem constructor (modifier application, C03) are abstract"]
 
     def setup(self, E):
@@ -91,13 +91,13 @@ class DetectionItemFromMapping(Contract):
     def args(self, I, case):
         key, shape = case
         v0, v1 = I.fresh("v0", "str"), I.fresh("v1", "str")
-        val = v0 if shape == "scalar" else [v0, v1] if shape == "list" else 5
-        return {"self": ClassRef(I.E.index.lookup(f"{DET}:SigmaDetectionItem")), "args": [key, val], "case": case, "vals": [v0] if shape == "scalar" else [v0, v1] if shape == "list" else [5]}
+        val = v0 if shape == "scalar" else [v0, v1] if shape == "list" else [v0, 5] if shape == "mixed" else 5
+        return {"self": ClassRef(I.E.index.lookup(f"{DET}:SigmaDetectionItem")), "args": [key, val], "case": case, "vals": [v0] if shape == "scalar" else [v0, v1] if shape == "list" else [v0, 5] if shape == "mixed" else [5]}
 
     def post(self, I, inp, r):
         key, shape = inp["case"]
         c = I.ctx
-        c.require(key != "f|nope" and not (key == "f|re" and shape == "nonstr"), "unknown modifiers and non-string regular expressions are rejected")
+        c.require(key != "f|nope" and not (key == "f|re" and shape in ("nonstr", "mixed")), "unknown modifiers and non-string regular expressions are rejected")
         a = r.fields["args"]
         parts = (key or "").split("|")
         want_field = parts[0] or None if key is not None else None
@@ -113,7 +113,7 @@ class DetectionItemFromMapping(Contract):
 
     def raises(self, I, inp, exc):
         key, shape = inp["case"]
-        I.ctx.require((exc_is(I, exc, "SigmaModifierError") and key == "f|nope") or (exc_is(I, exc, "SigmaTypeError") and shape == "nonstr"), f"SigmaModifierError for an unknown modifier, SigmaTypeError for a non-string regular expression (got {exc_name(exc)})", kind="SAFE")
+        I.ctx.require((exc_is(I, exc, "SigmaModifierError") and key == "f|nope") or (exc_is(I, exc, "SigmaTypeError") and shape in ("nonstr", "mixed")), f"SigmaModifierError for an unknown modifier, SigmaTypeError for a non-string regular expression (got {exc_name(exc)})", kind="SAFE")
 
     def frame_ok(self, I, inp, obj, name):
         return False
